@@ -460,6 +460,13 @@ def _events(prog, fn, el, v, sv, assigned=()):
                 a0 = strip(a)
                 if isinstance(a0, dict) and a0.get("k") == "un" and a0["op"] == "&" and is_var(a0["e"], v):
                     kind = producer_kind(prog, name, j) if name else "unknown"
+                    if not name and isinstance(n.get("f"), dict) and strip(n["f"]).get("k") == "mem":
+                        # indirect producer through a struct field (tmpl->listNew(&list)): all functions ever stored there agree
+                        tg = field_targets(prog).get(strip(n["f"])["f"], set())
+                        ks = {producer_kind(prog, t, j) for t in tg}
+                        if tg and len(ks) == 1:
+                            kind = ks.pop()
+                            name = "(*%s)" % strip(n["f"])["f"]
                     if kind == "own":
                         ev.append(("acq", name, j, any(n is c for c in assigned), n.get("ln")))
                     elif kind == "borrow":
@@ -479,6 +486,12 @@ def _events(prog, fn, el, v, sv, assigned=()):
                                 not re.search(r"List_(append|insertAt|replaceAt)$", name) and \
                                 (consume_fields(prog, name, j) & owning_fields(prog)):
                             ev.append(("given", name, n.get("ln")))
+                        elif not name and isinstance(n.get("f"), dict) and strip(n["f"]).get("k") == "mem" and any(n is c for c in assigned):
+                            # indirect consumer through a struct field (tmpl->setValue(payload, list)): every function stored there keeps
+                            # the argument in a field its holder releases
+                            tg = field_targets(prog).get(strip(n["f"])["f"], set())
+                            if tg and all(consumer_kind(prog, t, j) == "consume" and (consume_fields(prog, t, j) & owning_fields(prog)) for t in tg):
+                                ev.append(("given", "(*%s)" % strip(n["f"])["f"], n.get("ln")))
                 elif passes_var(fn, a0, v):
                     if call_consumer_kind(prog, fn, n, j) != "borrow":
                         ev.append(("use", name))
